@@ -334,6 +334,11 @@ func runReq(raw json.RawMessage, seed int64, rec *Rec) {
 	case "unknown":
 		req.Header.Set(encodingHeader(protoName, rawBody), "zstd-verif")
 	}
+	if s.Tid%2 == 0 {
+		// what the client can take back says nothing about what it sent: the request's messages are judged by the
+		// request's own encoding header
+		req.Header.Set(acceptEncodingHeader(protoName, rawBody), "gzip")
+	}
 	switch s.Theader {
 	case "connect":
 		req.Header["Connect-Timeout-Ms"] = []string{strings.Join(s.Timeout, "")}
